@@ -364,10 +364,42 @@ CLAIMED = {
               "lift (proto level only). Fixed findings: method decoding (5c1d1a4), port shifted once per CHANGE-REQUEST "
               "(656596d), RFC 5389 padding (eaff8f8), panics on malformed attributes (79978bd)."),
         technique="Coq theorems (reference codec round trips, handler correctness for all attribute lists, exact answered set, UDP frame lift) + extracted monitors and Python oracle on implementation output + model/implementation correspondence"),
+    "C17": dict(
+        text=("Coq theorems over the SMB responder model (byte-at-a-time dissectors folded over the payload) and proto::repl: "
+              "an independent reference codec (Spec/RefSmb.v, from RFC 1002, [MS-CIFS], [MS-SMB], [MS-SMB2]: NetBIOS session "
+              "header, SMB1/SMB2 headers, the four request bodies with encoders and readers, the four response readers with "
+              "consistency predicates) with round trips and an exact classifier (sound and complete). For every well-formed "
+              "request -- all correlation ids, all flag values without the reply bit, every dialect list (duplicates, "
+              "unknown entries, any order), every security blob length incl. 0, any trailing bytes, any NetBIOS header bytes "
+              "-- the dissector reaches End with exactly the request's fields (per-field combinator lemmas composed), and "
+              "the reply decodes by the independent reader to: NetBIOS length = bytes that follow, reply flag set, command "
+              "and correlation fields (SMB1 PIDHigh/TID/PIDLow/UID/MID, SMB2 MessageId/AsyncId/SessionId) echoed, SMB1 "
+              "negotiate WordCount 17 and ByteCount = 16 + |blob|, SMB1 session setup SecurityBlobLength = |blob| and "
+              "ByteCount = blob + strings, SMB2 negotiate buffer offset 0x80 / length = |blob| = bytes remaining, SMB2 "
+              "session setup offset 0x48, the blob being the one dumped from the implementation; SMB1 DialectIndex points "
+              "at an offered dialect (the preferred known one when offered), SMB2 DialectRevision is offered and is the "
+              "server's first preference among the offered ones, no reply when none is supported or none is offered; "
+              "messages with the reply flag and all other commands (all 256 SMB1 bytes, all 65536 SMB2 words) get nothing. "
+              "Lifted through proto::repl (UDP and first TCP segment, identification as hypothesis). Tied to /repo by "
+              "differential execution (ids, flags, dialect lists, blob lengths 0..512, all commands, reply flags, "
+              "truncations, NetBIOS header bytes; both transports and IP versions) and by the extracted monitors and an "
+              "independent Python reader (incl. DER length of the blob present) on the implementation's replies."),
+        design="DESIGN.md sections 5 (C17) and 10.7",
+        note=("Trusted: Coq kernel/vm_compute, extraction + OCaml driver, harness incl. its Python oracle, data translator "
+              "(the two security blobs; blob_ok -- octets, shorter than 65000 bytes -- is re-decided per run); correspondence "
+              "is testing. Proto level only (no frame-level lift yet); identification and 'identified payloads carry the "
+              "magic' are C10's subject. The request must arrive in one datagram / first segment (fresh dissector per "
+              "call). Scope of the reference: SMB1 negotiate with WordCount 0 / buffer format 2, SMB1 session setup in "
+              "the extended-security form (WordCount 12), SMB2 negotiate with DialectCount >= 1. Wall-clock FILETIME fields "
+              "are unconstrained. Observations outside the text: SMB2 picks the LOWEST offered revision; a negotiate "
+              "offering only 0x0311 gets NegotiateContextCount 1 with offset 0; status 0 instead of MORE_PROCESSING_REQUIRED. "
+              "Fixed findings: duplicate dialects / bytes after the dialect list (9bdd5f3), empty security blob never "
+              "answered (5dca3e9)."),
+        technique="Coq theorems (reference codec round trips, per-field dissector lemmas composed into parse theorems, reply decode by an independent reader, silence clauses over finite command domains) + extracted monitors and Python oracle on implementation output + model/implementation correspondence"),
 }
 
 ALL = ["C%02d" % i for i in range(1, 21)]
-PENDING_REASON = "not claimed yet: model/theorems for this property are still under construction in this round (see DESIGN.md section 9)"
+PENDING_REASON = "not claimed: see DESIGN.md section 10"
 
 
 def main():
